@@ -32,11 +32,11 @@ T == ndJsonDeserialize(IOEnv.TRACE)
 Ev == T[l]
 Is(e) == l <= Len(T) /\ T[l].e = e
 
-ObjNames == {"A", "B", "C"}
+ObjNames == {"A", "B", "C", "D", "E", "F"}
 NoCirc == [cells |-> <<>>, nets |-> <<>>, rows |-> <<>>]
 Idle == [active |-> FALSE, obj |-> "", stage |-> "", entry |-> NoCirc, ncb |-> 0, firstDet |-> NoCirc,
          hasDet |-> FALSE, lastDet |-> NoCirc, lastWl |-> 0, lastLB |-> NoCirc, lastUB |-> NoCirc, hasLB |-> FALSE, hasUB |-> FALSE,
-         steps |-> <<>>, cb |-> FALSE, thrower |-> "none"]
+         steps |-> <<>>, cb |-> FALSE, thrower |-> "none", inflight |-> 0, solves |-> 0]
 NoHist == [s \in {"global", "legalize", "detailed"} |-> [done |-> FALSE, ok |-> FALSE, entry |-> NoCirc, result |-> NoCirc]]
 
 F(p, why, sig) == [p |-> p, why |-> why, sig |-> sig]
@@ -92,9 +92,10 @@ RefLegal(o) ==
     IF qs = {} THEN [ok |-> FALSE, result |-> NoCirc]
     ELSE LET q == CHOOSE q \in qs : TRUE IN [ok |-> hist[q]["legalize"].ok, result |-> hist[q]["legalize"].result]
 
+InflightFails == IF call.inflight # 0 THEN {F("C08", <<"a solve is still running at a callback / end of call", call.inflight>>, "solve-open")} ELSE {}
 CbFails(c) ==
     LET st == call.stage step == Ev.step IN
-    FrameFails(c, st = "global") \cup WlFails(c) \cup FiniteFails(c) \cup
+    InflightFails \cup FrameFails(c, st = "global") \cup WlFails(c) \cup FiniteFails(c) \cup
     (IF st = "legalize" /\ step = "Detailed" THEN LegalFails("C01", c) \cup OrientFails(call.entry, c) ELSE {}) \cup
     (IF st = "detailed" /\ step = "Detailed"
      THEN LegalFails(IF call.hasDet THEN "C02" ELSE "C01", c) \cup OrientFails(call.entry, c) \cup
@@ -109,7 +110,7 @@ CbFails(c) ==
 
 RetFails(c) ==
     LET st == call.stage o == call.obj IN
-    FrameFails(c, st = "global") \cup WlFails(c) \cup FiniteFails(c) \cup
+    InflightFails \cup FrameFails(c, st = "global") \cup WlFails(c) \cup FiniteFails(c) \cup
     (IF st = "legalize"
      THEN LegalFails("C01", c) \cup OrientFails(call.entry, c) \cup
           (IF Legal(call.entry) /\ AllRowHigh(call.entry)
@@ -245,6 +246,18 @@ FreeEv == /\ Is("Free")
                        THEN {F("C15", <<"free segments", got, "expected", exp>>, "freespace")} ELSE {})
           /\ l' = l + 1 /\ UNCHANGED <<run, scen, params, base, objs, call, hist, expect>>
 
+\* C08: entry / exit of one of the two parallel lower-bound solves (hook events).  Contract taken from GlobalLoop:
+\* at most the two solves of one step are in flight, both have ended before the next callback or the end of the call.
+SolveEv == /\ Is("Solve") /\ call.active /\ call.stage = "global"
+           /\ LET n == IF Ev.phase = "enter" THEN call.inflight + 1 ELSE call.inflight - 1 IN
+              /\ call' = [call EXCEPT !.inflight = n, !.solves = @ + 1]
+              /\ fails' = IF n < 0 \/ n > 2 THEN {F("C08", <<"solves in flight", n>>, "solve-nesting")} ELSE {}
+           /\ l' = l + 1 /\ UNCHANGED <<run, scen, params, base, objs, hist, expect>>
+Schedule == /\ Is("Schedule") /\ ~call.active /\ fails' = {}
+            /\ l' = l + 1 /\ UNCHANGED <<run, scen, params, base, objs, call, hist, expect>>
+HarnessError == /\ Is("HarnessError") /\ fails' = {F("framework", <<"harness error", Ev>>, "harness")}
+                /\ l' = l + 1 /\ UNCHANGED <<run, scen, params, base, objs, call, hist, expect>>
+
 ExpectReject == /\ Is("ExpectReject") /\ ~call.active /\ expect' = "reject" /\ fails' = {}
                 /\ l' = l + 1 /\ UNCHANGED <<run, scen, params, base, objs, call, hist>>
 
@@ -256,7 +269,7 @@ ParamCheck == /\ Is("ParamCheck")
               /\ fails' = ParamCheckFails(Ev)
               /\ l' = l + 1 /\ UNCHANGED <<run, scen, params, base, objs, call, hist, expect>>
 
-Next == ExpectReject \/ ParamsCtor \/ ParamCheck \/ Rebase \/ FreeEv \/ Incr \/ Reset \/ Begin \/ Cb \/ CbThrow \/ EndReturn \/ EndThrow \/ BadFate \/ Setter
+Next == SolveEv \/ Schedule \/ HarnessError \/ ExpectReject \/ ParamsCtor \/ ParamCheck \/ Rebase \/ FreeEv \/ Incr \/ Reset \/ Begin \/ Cb \/ CbThrow \/ EndReturn \/ EndThrow \/ BadFate \/ Setter
 Spec == Init /\ [][Next]_vars
 
 ---------------------------------------------------------------------------
